@@ -14,7 +14,7 @@ IFCONVERTED = {}    # module name -> qualnames where an if-conversion was applie
 IFCONV = {
     'crysp.crc': ('crc_table', 'crc_back_table', 'crc32_fix'),
     'crysp.bits': ('Bits.__setitem__', 'Bits.signextend'),
-    'crysp.tlsh': ('distance', 'distance.diffmod'),
+    'crysp.tlsh': ('distance', 'distance.diffmod', 'TLSH.final'),
     'crysp.nilsimsa': ('Nilsimsa.digest',),
 }
 
@@ -39,7 +39,7 @@ class Tx(ast.NodeTransformer):
 
     def _ifconv_target(self, st):
         "single Assign/AugAssign to a Name or Attribute -> (key, target, value expression)"
-        if isinstance(st, ast.Assign) and len(st.targets) == 1 and isinstance(st.targets[0], (ast.Name, ast.Attribute)):
+        if isinstance(st, ast.Assign) and len(st.targets) == 1 and isinstance(st.targets[0], (ast.Name, ast.Attribute, ast.Subscript)):
             t = st.targets[0]
             return ast.dump(t), t, st.value
         if isinstance(st, ast.AugAssign) and isinstance(st.target, ast.Subscript):
